@@ -432,6 +432,20 @@ def _run_case(spec, workdir):
     sample = dict(spec=spec, outcome=outcome, info=info, tail=[{k: r.get(k) for k in ("k", "pid", "role", "q", "pos", "item", "e") if r.get(k) is not None} for r in recs[-8:]])
     res = dict(counters=dict(counters), nontrivial=par >= 2, sample=sample,
                sets=dict(fault_points=[[spec["stage"], par, spec["item"], spec["exc"], spec["profile"]]], interleaving_signatures=[models.signature(recs)]))
+    if spec["stage"] == "walk" and isinstance(spec["item"], list) and spec["item"][0] >= 1:
+        # the failed tile never completed: no callback may start for any of its ancestors, whatever the walk reports in the end
+        # (the ordering half of the cascade-walk property, under a fault)
+        anc = set()
+        q = tuple(spec["item"])
+        apex_n = (spec.get("apex") or [0])[0]
+        while q[0] > apex_n:
+            q = rq.parent(q)
+            anc.add(q)
+        started = [tuple(r["pos"]) for r in recs if r["k"] == "cb_start" and tuple(r["pos"]) in anc]
+        if started:
+            res.update(status="violation", key="walk:%s:ancestor-started-although-its-child-failed" % ("serial" if par == 1 else "parallel"),
+                       detail="the callback of %s failed, yet callbacks started for its ancestors %s (outcome %s)" % (spec["item"], started[:4], outcome), witness_files=dict(eventlog=log))
+            return res
     if outcome == "raised" or (par == 1 and outcome == "died" and str(spec["exc"]).startswith("signal:")):
         res["status"] = "held"  # (a signal death in serial mode takes the caller's own process down: visible)
         return res
